@@ -43,6 +43,9 @@ type histCase struct {
 
 func genHistory(t *rapid.T) histCase {
 	a, _ := genAli(t, false, 2)
+	if rapid.IntRange(0, 3).Draw(t, "columncase") == 0 {
+		a = columnCase(t, a)
+	}
 	c := histCase{Ali: a, Seed: rapid.Int64Range(1, 1<<30).Draw(t, "seed")}
 	chars := ntIUPAC
 	if a.Alphabet == "aa" {
@@ -156,10 +159,12 @@ func checkHistory(c histCase) (o pbt.Outcome, err error) {
 		if o, e = majorityOn(al, a, 3, o); e != nil {
 			return o, wrap("majority", e)
 		}
-		if !isMixed(a) {
+		if columnCaseOK(a) {
 			if o, e = siteMeasuresOn(al, a, siteCase{Ali: a, Pseudo: 0.5, Norm: align.PSSM_NORM_FREQ}, o); e != nil {
 				return o, wrap("site measures", e)
 			}
+		}
+		if !isMixed(a) {
 			if o, e = uniqueOn(al, a, uniqueCase{Ali: a, Profile: initial}, prof, o); e != nil {
 				return o, wrap("unique counters (profile taken at the start)", e)
 			}
